@@ -2,7 +2,7 @@
 import lm
 import rules
 from lm import S, strip, cval
-from props.common import Ctx, has, fmt_facts, guard_retvals
+from props.common import Ctx, has, fmt_facts, guard_retvals, TMR_REMOVERS, TMR_CHARGED
 from props.reset import reset_obligations
 
 LEVEL = "other"
@@ -15,7 +15,7 @@ CONSUMERS = [
     ("m_mod_ps_subscribe", "Lib/core/ps.c"), ("m_mod_ps_unsubscribe", "Lib/core/ps.c"), ("m_mod_ps_tell", "Lib/core/ps.c"),
     ("m_mod_ps_publish", "Lib/core/ps.c"), ("m_mod_ps_poisonpill", "Lib/core/ps.c"), ("m_mod_become", "Lib/core/evts.c"),
     ("m_mod_unbecome", "Lib/core/evts.c"), ("m_mod_stash", "Lib/core/evts.c"), ("m_mod_unstash", "Lib/core/evts.c"),
-    ("m_mod_set_batch_size", "Lib/core/evts.c"),
+    ("m_mod_set_batch_size", "Lib/core/evts.c"), ("deregister_internal_tmr", "Lib/core/src.c"),
 ]
 VIA_SRC = {   # public source calls: consume through register_mod_src / deregister_mod_src
     "m_mod_src_register_fd": "register_mod_src", "m_mod_src_deregister_fd": "deregister_mod_src",
@@ -72,8 +72,8 @@ def run(ck, P):
         effs = [ev for ev in f.events() if eff.is_effect(ev)]
         ok = bool(effs) and all(ev.kind == "call" and ev.callee == via for ev in effs)
         ck.ob("C18.1-CONSUME", f.site("acts via " + via), ok, "%s: effects %s" % (name, sorted({S(e.e)[:40] for e in effs})), nontrivial=False)
-    for (name, unit, subs) in (("m_mod_set_batch_timeout", "Lib/core/evts.c", {"m_mod_src_register_tmr", "m_mod_src_deregister_tmr"}),
-                               ("m_mod_set_tokenbucket", "Lib/core/mod.c", {"m_mod_src_register_tmr", "m_mod_src_deregister_tmr"})):
+    for (name, unit, subs) in (("m_mod_set_batch_timeout", "Lib/core/evts.c", set(TMR_CHARGED)),
+                               ("m_mod_set_tokenbucket", "Lib/core/mod.c", set(TMR_CHARGED))):
         f = P.fn(name, unit)
         ck.analysed(f)
         cs = [e for e in f.calls() if e.callee in subs]
@@ -129,12 +129,12 @@ def run(ck, P):
           "%d configuring path(s) leave tokens = burst" % nl if badl is None else "a path with rate != 0 leaves the bucket at a value other than burst (unlimited)",
           path=rules.fmt_path(tbf, badl) if badl else None)
     # the removal of the old refill timer must not be refusable by the bucket that is being replaced
-    drs = [e for e in tbf.calls("m_mod_src_deregister_tmr")]
+    drs = [e for e in tbf.calls() if e.callee in TMR_REMOVERS]
     lifts = [e for e in tbf.events() if e.kind == "assign" and S(e.lhs) == "mod->tb.tokens" and cval(e.rhs) == U64MAX]
     okl = bool(drs) and all(any(tbf.ev_dominates(l, d) for l in lifts) or _result_checked(tbf, d) for d in drs)
     ck.ob("C18.2-COUNTER", tbf.site("old timer removal cannot be throttled"), okl,
           "the limit is lifted (tokens = UINT64_MAX) before the old refill timer is deregistered, or the result is propagated" if okl else
-          "m_mod_src_deregister_tmr() of the old refill timer consumes a token of the bucket being replaced and its result is ignored: with an empty "
+          "the deregistration of the old refill timer consumes a token of the bucket being replaced and its result is ignored: with an empty "
           "bucket the old timer stays and the module is refilled at r_old + r_new")
 
     # ------------------------------------------------------------------ 3. refill wiring
@@ -150,7 +150,7 @@ def run(ck, P):
     recog = [e for e in pe.events() if e.kind == "decl" and e.rhs is not None and S(e.rhs) == "(src->userptr == &mod->tb)"]
     okr = bool(regs) and all(cval(e.args[2]) == ((1 << 7) | P.enums["M_SRC_PRIO_HIGH"]) and S(e.args[3]) == "&mod->tb" and S(e.args[1]) == "&mod->tb.timer" for e in regs) and bool(recog)
     ck.ob("C18.3-REFILL", tb.site("registration"), okr, "registered as %s; recognised in push_evt: %s" % ([(cval(e.args[2]), S(e.args[3])) for e in regs], bool(recog)))
-    dr = list(tb.calls("m_mod_src_deregister_tmr"))
+    dr = [e for e in tb.calls() if e.callee in TMR_REMOVERS]
     okd = bool(dr) and all(has(X.facts(tb, e), "mod->tb.timer.ns") and S(e.args[1]) == "&mod->tb.timer" for e in dr) and all(tb.ev_dominates(d, n) or d.block.id != n.block.id for d in dr for n in ns)
     stores_before = [n for n in ns for d in dr if tb.ev_dominates(n, d)]
     ck.ob("C18.3-REFILL", tb.site("old timer removed first"), okd and not stores_before, "deregister of the previous refill timer precedes the new period: %s" % (okd and not stores_before))
@@ -177,12 +177,12 @@ def run(ck, P):
             bad = path
         # the restore must come after every token-consuming call of the path (a deregistration charges one token)
         tk = [i for i, e in enumerate(evs) if e.kind == "assign" and S(e.lhs) == "mod->tb.tokens"]
-        cons = [i for i, e in enumerate(evs) if e.kind == "call" and e.callee in ("m_mod_src_deregister_tmr", "m_mod_src_register_tmr")]
+        cons = [i for i, e in enumerate(evs) if e.kind == "call" and e.callee in TMR_CHARGED]
         if tk and cons and max(cons) > max(tk):
             bad = path
             why = "a rate-0 path charges a token (timer deregistration) after the last tokens = UINT64_MAX: the switched-off bucket is left at UINT64_MAX - 1, not unlimited"
         # switching the bucket off must also remove its refill timer when one is registered
-        dr_ = [e for e in evs if e.kind == "call" and e.callee == "m_mod_src_deregister_tmr" and S(e.args[1]) == "&mod->tb.timer"]
+        dr_ = [e for e in evs if e.kind == "call" and e.callee in TMR_REMOVERS and S(e.args[TMR_REMOVERS[e.callee]]) == "&mod->tb.timer"]
         had = a.get("mod->tb.timer.ns")
         if had is None or (had is True and not dr_) or (dr_ and ms and evs.index(dr_[0]) > evs.index(ms[0])):
             bad = path
